@@ -16,20 +16,21 @@ func fakesqlPlan(at int, after bool) fakesql.Plan { return fakesql.Plan{Call: at
 // caseRun: one case against one backend. The rig's reference is (a) the ownership map phys-record -> logical
 // tuple, learned from the records successful writes created, and (b) the previous full dump.
 type caseRun struct {
-	run     *vf.Run
-	be      backend
-	cs      *caseSpec
-	label   string
-	tenants []*tenant
-	state   map[string]string
-	owner   map[string]tuple
-	byTuple map[tuple]string
-	opIdx   int
-	opViol  int // violations raised for the current operation
-	nViol   int
-	nontriv bool
-	events  []string
-	fullRep map[string]int // per child: how many full replays were attached per key
+	run       *vf.Run
+	be        backend
+	cs        *caseSpec
+	label     string
+	tenants   []*tenant
+	state     map[string]string
+	owner     map[string]tuple
+	byTuple   map[tuple]string
+	opIdx     int
+	curSerial string // `"Time":<serial>}` of the running operation: marks the entries it supplied itself
+	opViol    int    // violations raised for the current operation
+	nViol     int
+	nontriv   bool
+	events    []string
+	fullRep   map[string]int // per child: how many full replays were attached per key
 }
 
 func (c *caseRun) logf(format string, a ...any) {
@@ -62,11 +63,10 @@ func (c *caseRun) key(verb string, k kind, what string) string {
 // cause is the key layout <root>/<kind>/<task>, not an individual statement.
 func (c *caseRun) foreignKey(verb string, k kind, f tuple, a addr) string {
 	rel := relation(f, a, verb == "get")
-	if rel == relNested {
-		return fmt.Sprintf("C12/%s/nested-root-path", c.cs.Backend)
-	}
 	if c.labelFor(k) == "etcd-rootpath-empty" && f.Root != a.Root {
 		rel = "other-root" // every tenant shares the one namespace: how the roots relate is irrelevant
+	} else if rel == relNested {
+		return fmt.Sprintf("C12/%s/nested-root-path", c.cs.Backend)
 	}
 	return c.key(verb, k, rel)
 }
@@ -140,6 +140,7 @@ func (c *caseRun) coverage(o *op, a addr) {
 
 func (c *caseRun) step(i int, o *op) bool {
 	c.opIdx, c.opViol = i, 0
+	c.curSerial = fmt.Sprintf(`"Time":%d}`, o.Serial)
 	tn := c.tenants[o.Tenant]
 	a := addrOf(tn.Root, o)
 	c.coverage(o, a)
@@ -482,6 +483,9 @@ func (c *caseRun) judgeRead(o *op, a addr, res result, before map[string]string)
 	rankOf := func(t tuple) int {
 		switch r := relation(t, q, true); {
 		case r == "same-root-other-kind":
+			if o.Kind != "repl_get_all" {
+				return 4 // only a whole-root prefix read can plausibly return the tenant's other kinds
+			}
 			return 0
 		case r == relNested:
 			return 1
@@ -536,7 +540,30 @@ func (c *caseRun) judgeUpdatePos(o *op, a addr, before, after map[string]string,
 	}
 	if len(x) == 0 {
 		if c.opViol == 0 && !anyDropped() {
-			c.violate(c.key(verb, kPos, "no-effect"), fmt.Sprintf("successful position update changed no addressed record (%d candidate(s))", len(cands)), o)
+			// the update vanished: was it absorbed by a related foreign record whose entry for this channel is dropped
+			// (the update's read step returned that record instead of the addressed one)?
+			key, src := c.key(verb, kPos, "no-effect"), ""
+			for _, k2 := range sortedKeys(before) {
+				t2 := c.owner[k2]
+				if t2.Kind != kPos || a.matches(t2) {
+					continue
+				}
+				f, fok := c.be.AsReturned(kPos, k2, before[k2])
+				if !fok {
+					continue
+				}
+				e, _ := sub(tree(f), "Positions")[o.Chan].(map[string]any)
+				if e["Dropped"] != true {
+					continue
+				}
+				switch relation(t2, a, true) {
+				case "other-root", "other-task", "other-collection", "same-root-other-kind":
+					continue
+				}
+				key, src = c.foreignKey("get", kPos, t2, a), "; absorbed by the dropped entry of foreign record "+printable(k2)+" owned by "+t2.String()
+				break
+			}
+			c.violate(key, fmt.Sprintf("successful position update changed no addressed record (%d candidate(s))%s", len(cands), src), o)
 		}
 		return
 	}
@@ -562,7 +589,7 @@ func (c *caseRun) judgeUpdatePos(o *op, a addr, before, after map[string]string,
 		}
 		if jstr(at["TaskID"]) != jstr(o.Task) || jstr(at["CollectionID"]) != strconv.FormatInt(wantColl, 10) {
 			key := c.key(verb, kPos, "wrong-result")
-			if f, found := c.explainPos(k, at, before, nil); found {
+			if f, found := c.explainPos(k, at, before, [][2]string{{"Positions", o.Chan}, {"OpPositions", o.Chan}, {"TargetPositions", targetKey(o.Chan)}}); found {
 				key = c.foreignKey("get", kPos, c.owner[f], a)
 			}
 			c.violate(key, fmt.Sprintf("created record %s is for task %s collection %s, want %q / %d", printable(k), jstr(at["TaskID"]), jstr(at["CollectionID"]), o.Task, wantColl), o)
@@ -609,6 +636,8 @@ func (c *caseRun) judgeUpdatePos(o *op, a addr, before, after map[string]string,
 		}
 	}
 	otherChanged := ""
+	type finding struct{ what, desc string }
+	var finds []finding
 	for _, s := range slots {
 		bm, am := sub(bt, s.field), sub(at, s.field)
 		names := map[string]bool{}
@@ -632,56 +661,161 @@ func (c *caseRun) judgeUpdatePos(o *op, a addr, before, after map[string]string,
 			}
 			switch {
 			case dropped && bv != av:
-				c.violate(c.key(verb, kPos, "dropped-entry-overwritten"), fmt.Sprintf("record %s: dropped entry %s[%q] changed from %s to %s", printable(k), s.field, e, short(bv, 150), short(av, 150)), o)
+				finds = append(finds, finding{"dropped-entry-overwritten", fmt.Sprintf("record %s: dropped entry %s[%q] changed from %s to %s", printable(k), s.field, e, short(bv, 150), short(av, 150))})
 			case !dropped && s.supplied != "" && av != s.supplied:
-				c.violate(c.key(verb, kPos, "addressed-entry-not-written"), fmt.Sprintf("record %s: %s[%q] = %s, want %s", printable(k), s.field, e, short(av, 150), short(s.supplied, 150)), o)
+				finds = append(finds, finding{"addressed-entry-not-written", fmt.Sprintf("record %s: %s[%q] = %s, want %s", printable(k), s.field, e, short(av, 150), short(s.supplied, 150))})
 			case !dropped && s.supplied == "" && bv != av:
-				c.violate(c.key(verb, kPos, "unaddressed-slot-changed"), fmt.Sprintf("record %s: %s[%q] changed from %s to %s though no value was supplied", printable(k), s.field, e, short(bv, 150), short(av, 150)), o)
+				finds = append(finds, finding{"unaddressed-slot-changed", fmt.Sprintf("record %s: %s[%q] changed from %s to %s though no value was supplied", printable(k), s.field, e, short(bv, 150), short(av, 150))})
 			}
 		}
 		if s.supplied != "" {
 			if _, have := am[s.key]; !have {
-				c.violate(c.key(verb, kPos, "addressed-entry-not-written"), fmt.Sprintf("record %s: %s[%q] absent after the update", printable(k), s.field, s.key), o)
+				finds = append(finds, finding{"addressed-entry-not-written", fmt.Sprintf("record %s: %s[%q] absent after the update", printable(k), s.field, s.key)})
 			}
 		}
 	}
-	if otherChanged == "" {
+	if otherChanged == "" && len(finds) == 0 {
 		return
 	}
-	// entries of other channels changed: was the record rebuilt from a foreign one (the read step returned it)?
-	key := c.key(verb, kPos, "other-channel")
-	src := ""
 	var skip [][2]string
 	for _, s := range slots {
 		skip = append(skip, [2]string{s.field, s.key})
 	}
-	if f, found := c.explainPos(k, at, before, skip); found {
-		key, src = c.foreignKey("get", kPos, c.owner[f], a), "; the rest of the record equals foreign record "+printable(f)+" owned by "+c.owner[f].String()
+	// was the record rebuilt from a foreign one (the update's read step returned it)? The dropped-entry clause is
+	// reported on its own in every case.
+	// (b) the record equals a foreign record with the supplied entries applied to it: the read step returned that one
+	apply := func(ft map[string]any) (string, bool) {
+		cp := tree(canon(ft))
+		rest := false
+		for _, s := range slots {
+			m := sub(cp, s.field)
+			for e := range m {
+				if e != s.key {
+					rest = true
+				}
+			}
+			if s.supplied == "" {
+				continue
+			}
+			if em, isM := m[s.key].(map[string]any); isM && em["Dropped"] == true {
+				continue
+			}
+			if cp[s.field] == nil {
+				cp[s.field] = map[string]any{}
+			}
+			cp[s.field].(map[string]any)[s.key] = tree(s.supplied)
+		}
+		return canon(cp), rest
 	}
-	c.violate(key, fmt.Sprintf("record %s: updating channel %q also changed %s (created=%v)%s", printable(k), o.Chan, otherChanged, created, src), o)
+	f, found := "", false
+	for _, k2 := range sortedKeys(before) {
+		t2 := c.owner[k2]
+		if k2 == k || t2.Kind != kPos {
+			continue
+		}
+		fs, fok := c.be.AsReturned(kPos, k2, before[k2])
+		if !fok {
+			continue
+		}
+		applied, rest := apply(tree(fs))
+		if !sameButIdentity(applied, as) {
+			continue
+		}
+		if !rest {
+			switch relation(t2, a, true) {
+			case "other-root", "other-task", "other-collection", "same-root-other-kind":
+				continue // a record with nothing but the addressed entries proves nothing
+			}
+		}
+		f, found = k2, true
+		break
+	}
+	if !found {
+		f, found = c.explainPos(k, at, before, skip)
+	}
+	for _, fd := range finds {
+		if fd.what == "dropped-entry-overwritten" || !found {
+			c.violate(c.key(verb, kPos, fd.what), fd.desc, o)
+		}
+	}
+	if found {
+		c.violate(c.foreignKey("get", kPos, c.owner[f], a), fmt.Sprintf("record %s after updating channel %q carries the entries of foreign record %s owned by %s (the update's read step returned it); changed: %s %v", printable(k), o.Chan, printable(f), c.owner[f], otherChanged, finds), o)
+		return
+	}
+	if otherChanged != "" {
+		c.violate(c.key(verb, kPos, "other-channel"), fmt.Sprintf("record %s: updating channel %q also changed %s (created=%v)", printable(k), o.Chan, otherChanged, created), o)
+	}
 }
 
-// explainPos: which other position record has the same channel entries as t, the entries in skip aside?
+// explainPos: the position record t (after the update) carries channel entries that neither its previous content
+// nor the supplied values account for (skip = the addressed slots): which single other record holds all of them?
+// Written values carry unique serials, so an entry identifies the record it was copied from.
 func (c *caseRun) explainPos(self string, t map[string]any, before map[string]string, skip [][2]string) (string, bool) {
-	strip := func(t map[string]any) string {
-		cp := tree(canon(t))
-		for _, f := range []string{"TaskID", "CollectionID", "CollectionName"} {
-			delete(cp, f)
+	prev := map[string]any{}
+	if b, ok := before[self]; ok {
+		if s, ok := c.be.AsReturned(kPos, self, b); ok {
+			prev = tree(s)
 		}
-		for _, s := range skip {
-			delete(sub(cp, s[0]), s[1])
-		}
-		return stripDropped(canon(cp))
 	}
-	want := strip(t)
-	if want == "null" || want == "{}" {
+	type ent struct{ field, key, val string }
+	var alien []ent
+	for _, f := range []string{"Positions", "OpPositions", "TargetPositions"} {
+		pm := sub(prev, f)
+		for e, v := range sub(t, f) {
+			val := stripDropped(jstr(v))
+			if stripDropped(jstr(pm[e])) == val {
+				continue
+			}
+			alien = append(alien, ent{f, e, val})
+		}
+	}
+	// drop the entries the operation itself supplied (they carry the operation's serial)
+	var rest []ent
+	for _, a := range alien {
+		mine := false
+		for _, s := range skip {
+			if s[0] == a.field && s[1] == a.key && strings.Contains(a.val, c.curSerial) {
+				mine = true
+			}
+		}
+		if !mine {
+			rest = append(rest, a)
+		}
+	}
+	if len(rest) == 0 {
+		// nothing copied; a created record may still carry a foreign record's identity (task id, collection id)
+		if _, existed := before[self]; !existed {
+			for _, k2 := range sortedKeys(before) {
+				if k2 == self || c.owner[k2].Kind != kPos {
+					continue
+				}
+				if f, fok := c.be.AsReturned(kPos, k2, before[k2]); fok {
+					ft := tree(f)
+					if jstr(ft["TaskID"]) == jstr(t["TaskID"]) && jstr(ft["CollectionID"]) == jstr(t["CollectionID"]) && c.owner[k2].Root != c.owner[self].Root {
+						return k2, true
+					}
+				}
+			}
+		}
 		return "", false
 	}
 	for _, k2 := range sortedKeys(before) {
 		if k2 == self || c.owner[k2].Kind != kPos {
 			continue
 		}
-		if f, fok := c.be.AsReturned(kPos, k2, before[k2]); fok && strip(tree(f)) == want {
+		f, fok := c.be.AsReturned(kPos, k2, before[k2])
+		if !fok {
+			continue
+		}
+		ft := tree(f)
+		all := true
+		for _, a := range rest {
+			if stripDropped(jstr(sub(ft, a.field)[a.key])) != a.val {
+				all = false
+				break
+			}
+		}
+		if all {
 			return k2, true
 		}
 	}
